@@ -2,6 +2,7 @@ package main
 
 import (
 	"fmt"
+	"strings"
 
 	"golang.org/x/tools/go/ssa"
 )
@@ -190,6 +191,56 @@ func c18eLocated(c *Ctx, nr, np *ssa.Function) {
 			c.Check(why == "", fmt.Sprintf("%s/located-error#%d", fk, i), c.W.Pos(r.Pos()), "the error returned is nil, a ParseError, or handed up from a parser function", fn.Name()+" returns "+why+" as its error: it carries no line range (the property promises every error names where in the input it is)")
 		}
 	}
+	// who may build a ParseError: the two constructors, which copy both ends from real tokens; a
+	// ParseError literal written anywhere else can leave the end (or the start) at zero
+	nLit := 0
+	for _, fn := range c.W.Funcs {
+		if isTestFunc(c.W, fn) || fn == nr || fn == np {
+			continue
+		}
+		instrs(fn, func(in ssa.Instruction) {
+			a, ok := in.(*ssa.Alloc)
+			if !ok || !typeIs(a.Type(), "parser", "ParseError") || a.Comment != "complit" {
+				return
+			}
+			nLit++
+			c.Bad(fmt.Sprintf("%s/parse-error-built-by-hand#%d", c.W.FuncKey(fn), nLit), c.W.Pos(a.Pos()), fn.Name()+" builds a ParseError itself instead of calling NewParseError / NewRangeParseError: nothing guarantees that its range has both ends and that start is not after end")
+		})
+	}
+	c.Check(nLit == 0, "located-errors/only-the-constructors-build-ParseError", "-", "ParseError values are built only by NewParseError and NewRangeParseError", "a ParseError is built outside the two constructors")
+	// the emitter's input-dependent errors: a failing return that is reached because a name was
+	// found in a label set reports the clash at the label (the emitter's other errors are internal
+	// consistency checks that no input reaches: C01.a, C01.e)
+	nClash := 0
+	for _, fn := range c.W.FuncsOf("emitter") {
+		if isTestFunc(c.W, fn) {
+			continue
+		}
+		res := fn.Signature.Results()
+		if res.Len() == 0 || !isErrorType(res.At(res.Len()-1).Type()) {
+			continue
+		}
+		for i, r := range returnsOf(fn) {
+			if isSuccessReturn(r) {
+				continue
+			}
+			found := false
+			for _, l := range c.mustLits(fn, r.Block()) {
+				if strings.HasPrefix(l, "+$") && strings.HasSuffix(l, "]#1") && strings.Contains(l, "[") {
+					found = true
+				}
+			}
+			if !found {
+				continue
+			}
+			nClash++
+			ev := r.Results[len(r.Results)-1]
+			call, isCall := ev.(*ssa.Call)
+			ok := isCall && (callee(call) == np || callee(call) == nr)
+			c.Check(ok, fmt.Sprintf("%s/clash-error-located#%d", c.W.FuncKey(fn), i), c.W.Pos(r.Pos()), "a name clash found while rendering is reported with a source range", fn.Name()+" reports a name clash with "+pretty(c.term(fn, ev))+", which carries no source range: the error must be built with NewParseError at the clashing label")
+		}
+	}
+	c.Check(nClash >= 2, "located-errors/emitter-clashes", "-", fmt.Sprintf("%d clash errors in package emitter", nClash), fmt.Sprintf("expected at least 2 clash errors in package emitter, found %d", nClash))
 	c.Check(nRet >= 100, "located-errors/scanned", "-", fmt.Sprintf("%d error returns of parser functions examined", nRet), fmt.Sprintf("expected at least 100 error returns in parser functions, found %d", nRet))
 }
 
